@@ -237,6 +237,69 @@ fn main() {
         writeln!(out, "junit {}\t{} ## {} ## {}", if req.is_empty() { ".".to_string() } else { req.join(";") }, canon, summary, st).unwrap();
         let _ = case;
     }
+    // ---- hostile output: `xmltext <hex s> <hex strip_str(s)>\t<hex system-out read back>;<hex system-err read back>`
+    // (one failing test whose two streams are the same hostile text, stored; the model answers what `xml_string` makes of it)
+    let pool: &[&str] = &["a", "Z", " ", "<", ">", "&", "\"", "'", "]]>", "<![CDATA[", "&amp;", "\t", "\n", "\r", "\r\n", "\x00", "\x01", "\x07", "\x08", "\x0b", "\x0c", "\x0e", "\x1f", "\x7f",
+        "\x1b", "\x1b[31m", "\x1b[0m", "\x1b]0;t\x07", "\x1b[", "\u{80}", "\u{85}", "\u{9b}", "\u{9b}1m", "\u{9f}", "\u{a0}", "\u{fffe}", "\u{ffff}", "\u{fffd}", "\u{fffc}", "\u{fdd0}", "\u{d7ff}", "\u{e000}",
+        "\u{10000}", "\u{1f600}", "\u{1fffe}", "\u{10ffff}", "日本", "thread 'main' panicked at src/lib.rs:1:1:\n", "error: "];
+    for _case in 0..n {
+        let _ = std::fs::remove_file(&junit_path);
+        let len = rng.range(0, 14) as usize;
+        let mut bytes: Vec<u8> = Vec::new();
+        for _ in 0..len {
+            if rng.chance(1, 40) { bytes.push(*rng.pick(&[0xffu8, 0xc0, 0xed, 0x80])); *dist.entry("xml:invalid-utf8".into()).or_insert(0) += 1; }
+            else { bytes.extend_from_slice(rng.pick(pool).as_bytes()); }
+        }
+        let s = String::from_utf8_lossy(&bytes).into_owned();
+        let stripped = strip_ansi_escapes::strip_str(&s);
+        for (k, f) in [("xml:c0", (|c: char| (c as u32) < 0x20 && c != '\n' && c != '\t' && c != '\r') as fn(char) -> bool), ("xml:esc", |c| c == '\x1b'), ("xml:c1", |c| (0x80..=0x9f).contains(&(c as u32))),
+                       ("xml:nonchar", |c| c == '\u{fffe}' || c == '\u{ffff}'), ("xml:markup", |c| c == '<' || c == '&' || c == ']')] {
+            if s.chars().any(f) { *dist.entry(k.into()).or_insert(0) += 1; }
+        }
+        if stripped != s { *dist.entry("xml:ansi-changes".into()).or_insert(0) += 1; }
+        let mut buf: Vec<u8> = Vec::new();
+        let t = instances[rng.below(instances.len() as u64) as usize];
+        let mut stats = RunStats::default();
+        {
+            let mut reporter = ReporterBuilder::default().build(&list, &profile, ReporterStderr::Buffer(&mut buf), StructuredReporter::new());
+            let now = Local::now().fixed_offset();
+            let res = ExecutionResult::Fail { abort_status: None, leaked: false };
+            let output = ChildExecutionOutput::Output { result: Some(res),
+                output: ChildOutput::Split(ChildSplitOutput { stdout: Some(Bytes::from(bytes.clone()).into()), stderr: Some(Bytes::from(bytes.clone()).into()) }), errors: None };
+            let statuses = vec![ExecuteStatus { retry_data: RetryData { attempt: 1, total_attempts: 1 }, output, result: res, start_time: now, time_taken: Duration::from_secs(1), is_slow: false, delay_before_start: Duration::ZERO }];
+            let run_statuses = ExecutionStatuses::verif_new(statuses);
+            stats.verif_on_test_finished(&run_statuses);
+            let mut send = |reporter: &mut nextest_runner::reporter::Reporter<'_>, kind: TestEventKind<'_>| {
+                let ev = TestEvent { timestamp: now, elapsed: Duration::from_millis(5), kind };
+                reporter.report_event(unsafe { std::mem::transmute::<TestEvent<'_>, TestEvent<'_>>(ev) }).expect("report_event");
+            };
+            send(&mut reporter, TestEventKind::TestFinished { test_instance: t, success_output: TestOutputDisplay::Never, failure_output: TestOutputDisplay::Never,
+                junit_store_success_output: false, junit_store_failure_output: true, run_statuses, current_stats: stats, running: 0, cancel_state: None });
+            send(&mut reporter, TestEventKind::RunFinished { run_id: quick_junit::ReportUuid::nil(), start_time: now, elapsed: Duration::from_secs(3), run_stats: stats });
+            reporter.finish();
+        }
+        let xml = std::fs::read_to_string(&junit_path).unwrap_or_default();
+        let got = match parse_xml(&xml) {
+            Err(e) => format!("xml-error:{}", hexs(&e)),
+            Ok(root) => {
+                let case = root.child("testsuites").and_then(|ts| ts.children.iter().find(|c| c.name == "testsuite")).and_then(|s| s.child("testcase"));
+                match case {
+                    None => "no-testcase".into(),
+                    Some(c) => {
+                        let o = c.child("system-out").map(|n| hexs(&n.text)).unwrap_or_else(|| "none".into());
+                        let e = c.child("system-err").map(|n| hexs(&n.text)).unwrap_or_else(|| "none".into());
+                        // every character of every text and attribute of the document must be an XML 1.0 Char
+                        fn bad(n: &Node) -> bool {
+                            let ok = |c: char| matches!(c as u32, 0x9 | 0xa | 0xd | 0x20..=0xd7ff | 0xe000..=0xfffd | 0x10000..=0x10ffff);
+                            !n.text.chars().all(ok) || n.attrs.iter().any(|(_, v)| !v.chars().all(ok)) || n.children.iter().any(bad)
+                        }
+                        format!("{};{}{}", o, e, if bad(&root) { ";!non-xml-char" } else { "" })
+                    }
+                }
+            }
+        };
+        writeln!(out, "xmltext {} {}\t{}", hexs(&s), hexs(&stripped), got).unwrap();
+    }
     out.flush().unwrap();
     let d: Vec<String> = dist.iter().map(|(k, v)| format!("{}={}", k, v)).collect();
     eprintln!("DIST {}", d.join(" "));
